@@ -28,8 +28,8 @@ def type_items():
     items.append({'file': P + 'inst.rs', 'item': 'enum Type', 'attrs': 'drop'})
     for s in ['Arith', 'IArith', 'Label', 'JumpLink', 'JumpLinkR', 'Basic', 'Branch', 'Load', 'Store', 'Directive', 'Csr', 'CsrI',
               'LoadAddr', 'FuncEntry', 'ProgramEntry']:
-        # `#[serde(skip)]` field attributes are dropped (serialization is not verified here)
+        # `#[serde(..)]` field attributes are dropped (serialization is not verified here)
         items.append({'file': P + 'details.rs', 'item': 'struct ' + s, 'attrs': 'drop', 'pre_lines': ['#[derive(Clone)]'],
-                      'rewrites': [(r'[ \t]*#\[serde\(skip\)\]\n', '')]})
+                      'rewrites': [(r'[ \t]*#\[serde\([^\n]*\)\]\n', '')]})
     items.append({'file': P + 'node.rs', 'item': 'enum ParserNode', 'attrs': 'drop', 'pre_lines': ['#[derive(Clone)]']})
     return items
